@@ -119,6 +119,11 @@ func (p *Pool) RangeEnd(t *rapid.T, label string, allowEmptyPresent bool) []byte
 		return []byte{0}
 	case c == 3 && allowEmptyPresent:
 		return []byte{}
+	case c == 4:
+		// "just past k": the successor k+0x00 (or a longer extension) of a key - a bound is no key, it may exceed the key length
+		// limit when k is as long as a key may be
+		k := p.Key(t, label+".endof")
+		return append(k, rapid.SampledFrom([][]byte{{0}, {0}, {0xff}, {0xff, 0xff, 0xff}, {0, 0}}).Draw(t, label+".endext")...)
 	default:
 		return p.Key(t, label+".end")
 	}
